@@ -9,7 +9,10 @@ import (
 	"flag"
 	"fmt"
 	"os"
+	"sync"
+	"sync/atomic"
 	"time"
+	"unsafe"
 
 	"github.com/goose-lang/goose/machine"
 
@@ -277,6 +280,46 @@ func main() {
 				if kind, msg, _ := verdict(nil); kind != "" {
 					acc.Violate(ev.Violation{Key: "C15/" + c.ID() + "/free-" + kind, Msg: "free-running: " + msg, Replay: map[string]any{"scenario": c, "mode": "free"}})
 				}
+			}
+		}
+		// neighbours in one array: one goroutine keeps encoding into p[0:4] / p[0:8] of a larger, 8-aligned
+		// buffer while another owns the bytes right behind the frame and checks that its own stores stay.
+		// (A store wider than the frame that rewrites the neighbour's bytes with their old value is invisible
+		// to every sequential check and is a single statement for the controlled scheduler: this part is a
+		// free-running complement, not an exhaustive one.)
+		for _, w := range []int{4, 8} {
+			backing := make([]uint64, 4)
+			p := unsafe.Slice((*byte)(unsafe.Pointer(&backing[0])), 32)
+			var wg sync.WaitGroup
+			lost := int64(0)
+			stop := int32(0)
+			wg.Add(2)
+			go func() {
+				defer wg.Done()
+				for i := 0; atomic.LoadInt32(&stop) == 0; i++ {
+					if w == 4 {
+						machine.UInt32Put(p, uint32(i))
+					} else {
+						machine.UInt64Put(p, uint64(i))
+					}
+				}
+			}()
+			go func() {
+				defer wg.Done()
+				q := p[w : w+1 : w+1]
+				for i := 0; i < 2000000; i++ {
+					v := byte(i)
+					q[0] = v
+					if q[0] != v {
+						atomic.AddInt64(&lost, 1)
+					}
+				}
+				atomic.StoreInt32(&stop, 1)
+			}()
+			wg.Wait()
+			acc.Add("free_runs", 1)
+			if lost > 0 {
+				acc.Violate(ev.Violation{Key: fmt.Sprintf("C15/free-neighbour/u%d", w*8), Msg: fmt.Sprintf("free-running: while one goroutine encodes %d-byte values into the start of a buffer, the goroutine that owns the byte right behind the frame lost %d of its own stores: Put writes behind its frame", w, lost), Replay: map[string]any{"mode": "free"}})
 			}
 		}
 		acc.EmitChild()
